@@ -257,10 +257,10 @@ Theorem C05_roundtrip_mixed : forall c ser deser shash f ko vo meta,
 Proof. exact roundtrip_mixed. Qed.
 Print Assumptions C05_roundtrip_mixed.
 
-(* A3. The library's OWN default mappers (no mapper argument): a TypedTree of str data (explicit ids included,
-       D50 repaired) and a plain Tree of str data without explicit ids round-trip under default options / maps off. *)
+(* A3. The library's OWN default mappers (no mapper argument): a TypedTree and a plain Tree of str data (explicit
+       ids included: D50 and D92 repaired) round-trip under default options / maps off. *)
 Theorem C05_roundtrip_default_mappers : forall c shash ko vo meta f,
-  (c = CTyped /\ all_str f) \/ (c = CPlain /\ all_bare CPlain f) ->
+  (c = CTyped \/ c = CPlain) -> all_str f ->
   (ko = KTrue \/ ko = KFalse) -> (vo = VTrue \/ vo = VFalse) -> meta_ok meta ->
   tree_ok c f -> str_hash_fn shash f ->
   exists j f', save_doc c default_ser ko vo meta f = Ok j /\
@@ -269,14 +269,15 @@ Theorem C05_roundtrip_default_mappers : forall c shash ko vo meta f,
 Proof. exact roundtrip_default_mappers. Qed.
 Print Assumptions C05_roundtrip_default_mappers.
 
-(* KNOWN FINDING D92 (repairable, fixes/D92.diff): a plain Tree with a str node that has an explicit data_id is
-   SAVED without a mapper (entry {"str", "data_id"}) but cannot be LOADED without one: Tree.deserialize_mapper
-   raises NotImplementedError where TypedTree's accepts the same entry.  The model reproduces it. *)
+(* D92 (FIXED, fixes/D92.diff): a plain Tree with a str node that has an explicit data_id is saved without a mapper
+   (entry {"str", "data_id"}) and -- since the repair -- loaded without one, like a TypedTree; with the pre-repair
+   default mapper (always NotImplementedError) the same document was refused.  Regression example. *)
 Theorem C05_D92_witness :
-  exists j, save_doc CPlain default_ser KTrue VTrue [] f_d91 = Ok j /\
-            load_doc CPlain (default_deser CPlain whash) whash j = Err ENotImpl /\
-            (exists md f', load_doc CTyped (default_deser CTyped whash) whash j = Ok (md, f')).
-Proof. exact d91_witness. Qed.
+  exists j, save_doc CPlain default_ser KTrue VTrue [] f_d92 = Ok j /\
+            (exists md f', load_doc CPlain (default_deser CPlain whash) whash j = Ok (md, f') /\ iso f_d92 f') /\
+            (exists md f', load_doc CTyped (default_deser CTyped whash) whash j = Ok (md, f')) /\
+            load_doc CPlain default_deser_plain_prerepair whash j = Err ENotImpl.
+Proof. exact d92_witness. Qed.
 Print Assumptions C05_D92_witness.
 
 (* A4. OUTSIDE THE DOMAIN of C05: [clones_consistent].  One data_id stands for one data object (that is what a
